@@ -682,7 +682,10 @@ non-trivial = the history reached a state with a cycle among live groups OR (nes
             let r = rng.below(100);
             let op = if r < 34 && !lgroups.is_empty() {
                 let g = if rng.chance(1, 30) { rng.below(ng as u64) as usize } else { *rng.pick(&lgroups) };
-                Op::SetMem(vec![(g, mutate(&mut rng, g))], rng.chance(1, 5))
+                // internal_batch_modify searches with filter_all and would also edit a recycled target; the model
+                // covers modifications of live targets only, so the batch form is used for live targets only
+                let batch = rng.chance(1, 5) && lgroups.contains(&g);
+                Op::SetMem(vec![(g, mutate(&mut rng, g))], batch)
             } else if r < 52 && lgroups.len() >= 2 && hangs < max_hangs {
                 let mut gs = lgroups.clone();
                 rng.shuffle(&mut gs);
